@@ -18,6 +18,11 @@ def main():
     for sid in want:
         pid = sid.split("-")[0]
         d = os.path.join(VERIF, "seeded", sid)
+        # a change delivered for one property may be the business of another property's check (seeded/<sid>/check_with)
+        cw = os.path.join(d, "check_with")
+        if os.path.exists(cw):
+            with open(cw, encoding="utf-8") as f:
+                pid = f.read().strip() or pid
         if subprocess.run(["git", "-C", "/repo", "diff", "--quiet"]).returncode != 0:
             print("/repo is dirty - refusing")
             return 3
